@@ -764,10 +764,20 @@ func (g *G) Response(first *Op) kmip.ResponseMessage {
 			bi.ResultStatus = kmip.ResultStatusOperationFailed
 			bi.ResultReason = kmip.ResultReason(g.enumValue("ResultReason"))
 			bi.ResultMessage = g.Text()
+			if r.P(1, 4) {
+				bi.AsynchronousCorrelationValue = r.Bytes(1 + r.Intn(8))
+				if bi.ResultMessage != "" {
+					g.cover("message-and-async-value")
+				}
+			}
 			g.cover("status:failed")
 		case k == 8:
 			bi.ResultStatus = kmip.ResultStatusOperationPending
 			bi.AsynchronousCorrelationValue = r.Bytes(1 + r.Intn(8))
+			if r.Bool() {
+				bi.ResultMessage = "m" + g.Text() // a note next to the correlation value: both optional elements present
+				g.cover("message-and-async-value")
+			}
 			g.cover("status:pending")
 		default:
 			bi.ResultStatus = kmip.ResultStatusOperationUndone
